@@ -359,8 +359,8 @@ a_real a_real_atan2(a_real y, a_real x)
         if (y >= 0) { return r + A_REAL_PI; }
         return r - A_REAL_PI;
     }
-    if (y > 0) { return +A_REAL_PI; }
-    if (y < 0) { return -A_REAL_PI; }
+    if (y > 0) { return +A_REAL_PI_2; }
+    if (y < 0) { return -A_REAL_PI_2; }
     return 0;
 }
 
